@@ -1,7 +1,7 @@
 (* C21 — block alternate replaces exactly the selected construct.  Statements only. *)
 From Coq Require Import List Arith NArith ZArith Bool.
 Import ListNotations.
-From Orca Require Import Util Flat Lowering CheckLow LowPlain LowSpecial LowAlt.
+From Orca Require Import Util Flat Lowering CheckLow LowPlain LowSpecial LowAlt LowAltEq.
 
 (* block-alternate is accepted exactly on block / loop / if / else *)
 Theorem C21_accepted_on_constructs_only :
@@ -36,10 +36,28 @@ Theorem C21_checker_sound :
 Proof. exact checker_alt_sound. Qed.
 Print Assumptions C21_checker_sound.
 
-(* The region-based reading of the property ([spec21] in CheckLow.v: the construct from its opener through its
-   matching end -- for else: the else and its arm -- is replaced) and the depth-counter pass [dspec] are compared
-   with each other and with the real output on every sampled (body, plan) (CheckLow.holds21); their equivalence
-   for all well-bracketed bodies is the remaining proof obligation of C21 (PARTIAL). *)
+(* The depth-counter pass coincides with the region-based reading of the property ([spec21]: the construct from
+   its opener through its matching end -- for else: the else and its arm, the end kept -- is replaced by the
+   replacement code, everything else is rendered as in C15) for every body whose nesting is consistent
+   ([okdepth]) and every plan that puts no before/after/alternate probe on a removed position ([eqdom]). *)
+Theorem C21_depth_counter_is_region_replacement :
+  forall plan body, eqdom plan body = true ->
+    dspec plan (length body - 1) 0 1 None true body = spec21 plan body.
+Proof. exact dspec_is_spec21. Qed.
+Print Assumptions C21_depth_counter_is_region_replacement.
+
+(* C21 in full: block-alternate replaces exactly the selected construct, all other instructions and their
+   instrumentation unaffected, locals untouched -- for all bodies and all plans in the property's quantifier. *)
+Theorem C21_block_alternate_replaces_exactly_the_construct :
+  forall c : lcase,
+    plan_ok (c_body c) (c_plan c) = true -> eqdom (c_plan c) (c_body c) = true ->
+    is_nil (c_entry c) = true -> is_nil (c_exit c) = true ->
+    model c = Some (spec21 (c_plan c) (c_body c), c_groups c).
+Proof.
+  intros c Hok Heq He Hx. rewrite (lowering_alt_exact c Hok He Hx). rewrite (dspec_is_spec21 _ _ Heq). reflexivity.
+Qed.
+Print Assumptions C21_block_alternate_replaces_exactly_the_construct.
+
 Example C21_spec_example :
   let body := [FConst 1; FIf BtEmpty; FBlock BtEmpty; FOther 1; FEnd; FElse; FOther 2; FEnd; FLoop BtEmpty; FEnd; FEnd] in
   spec21 [(5%nat, MBlockAlt, [FConst 7; FDrop]); (8%nat, MBlockAlt, []); (0%nat, MBefore, [FOther 3])] body
